@@ -596,6 +596,101 @@ fn check_toolkit(_ctx: &Ctx, c: &ToolkitCase, probe: &mut Probe) -> Check {
     Ok(())
 }
 
+// ---------------------------------------------------------------------------
+// WAL payload records that carry canonical LISTS (generated values, not only seeds)
+
+#[derive(Clone, Debug, serde::Serialize, serde::Deserialize)]
+pub struct RefSeed {
+    wl: u8,
+    tick: u8,
+    gtick: u8,
+    h: u8,
+}
+
+#[derive(Clone, Debug, serde::Serialize, serde::Deserialize)]
+pub struct CorrCase {
+    this: RefSeed,
+    parents: Vec<RefSeed>,
+    swap: u16,
+}
+
+fn ref_seed() -> impl Strategy<Value = RefSeed> {
+    (0u8..2, 0u8..12, 0u8..12, 0u8..3).prop_map(|(wl, tick, gtick, h)| RefSeed { wl, tick, gtick, h })
+}
+
+/// tick values around byte and word boundaries (wire integers are little-endian: byte order
+/// and numeric order disagree exactly there)
+const TICKS: [u64; 12] = [0, 1, 2, 255, 256, 257, 511, 512, 65535, 65536, 0xffff_ffff, 0x1_0000_0000];
+
+fn real_ref(r: &RefSeed) -> warp_core::CausalTickReceiptRef {
+    let hh = |x: u8| *blake3::hash(&[x]).as_bytes();
+    warp_core::CausalTickReceiptRef {
+        worldline_id: warp_core::WorldlineId::from_bytes([0x40 + r.wl; 32]),
+        worldline_tick_after: warp_core::WorldlineTick::from_raw(TICKS[r.tick as usize % 12]),
+        commit_global_tick: warp_core::GlobalTick::from_raw(TICKS[r.gtick as usize % 12]),
+        commit_hash: hh(r.h),
+        submission_id: hh(r.h + 10),
+        ticket_digest: hh(r.h + 20),
+        receipt_content_digest: hh(r.h + 30),
+    }
+}
+
+fn corr_case() -> impl Strategy<Value = CorrCase> {
+    (ref_seed(), prop::collection::vec(ref_seed(), 0..5), any::<u16>()).prop_map(|(this, parents, swap)| CorrCase { this, parents, swap })
+}
+
+fn check_corr(_ctx: &Ctx, c: &CorrCase, probe: &mut Probe) -> Check {
+    use warp_core::causal_wal::WalReceiptCorrelationRecord as R;
+    let rec = R { receipt_ref: real_ref(&c.this), causal_parent_receipts: c.parents.iter().map(real_ref).collect() };
+    let bytes = rec.to_payload_bytes();
+    vensure!(rec.to_payload_bytes() == bytes, "C12/wal.receipt-correlation/encoder-not-deterministic", "");
+    // Law A
+    let v = match R::from_payload_bytes(&bytes) {
+        Ok(v) => v,
+        Err(e) => vfail!("C12/wal.receipt-correlation/law-a-roundtrip", "the decoder refuses the encoder's own output for parents {:?}: {e:?}", c.parents),
+    };
+    let mut want: Vec<_> = rec.causal_parent_receipts.clone();
+    want.sort();
+    want.dedup();
+    let mut got = v.causal_parent_receipts.clone();
+    got.sort();
+    vensure!(v.receipt_ref == rec.receipt_ref && got == want, "C12/wal.receipt-correlation/law-a-roundtrip", "decode(encode(v)) holds other parents than v: {:?} vs {:?}", v.causal_parent_receipts, want);
+    vensure!(v.to_payload_bytes() == bytes, "C12/wal.receipt-correlation/law-a-reencode", "");
+    // Law B on permuted parent blocks: the canonical bytes of k parents with two adjacent
+    // fixed-width blocks swapped must be refused (or re-encode to themselves)
+    let k = want.len();
+    if k >= 2 {
+        // block width from the encoder itself (a count word precedes a non-empty list)
+        let l1 = R { receipt_ref: rec.receipt_ref, causal_parent_receipts: vec![want[0]] }.to_payload_bytes().len();
+        let l2 = R { receipt_ref: rec.receipt_ref, causal_parent_receipts: vec![want[0], want[1]] }.to_payload_bytes().len();
+        let w = l2 - l1;
+        if w > 0 && bytes.len() == l1 + (k - 1) * w {
+            let i = vkit::pick_idx(c.swap, k - 1);
+            let base = bytes.len() - k * w;
+            let (a, b) = (base + i * w, base + (i + 1) * w);
+            let mut m = bytes.clone();
+            let (x, y) = (bytes[a..a + w].to_vec(), bytes[b..b + w].to_vec());
+            m[a..a + w].copy_from_slice(&y);
+            m[b..b + w].copy_from_slice(&x);
+            if m != bytes {
+                if let Ok(v2) = R::from_payload_bytes(&m) {
+                    let re = v2.to_payload_bytes();
+                    vensure!(re == m, "C12/wal.receipt-correlation/accepted-noncanonical/parents-out-of-order", "parents {i} and {} swapped on the wire were accepted and re-encode differently (ticks {:?})", i + 1, want.iter().map(|p| p.worldline_tick_after.as_u64()).collect::<Vec<_>>());
+                }
+                probe.class("parent-blocks-swapped");
+            }
+            // same worldline, ticks that order differently as bytes and as integers
+            if want.windows(2).any(|p| p[0].worldline_id == p[1].worldline_id && (p[0].worldline_tick_after.as_u64().to_le_bytes() > p[1].worldline_tick_after.as_u64().to_le_bytes()) != (p[0].worldline_tick_after > p[1].worldline_tick_after)) {
+                probe.nontrivial();
+                probe.class("byte-order-disagrees-with-value-order");
+            }
+        } else {
+            probe.class("layout-assumption-not-met(skipped)");
+        }
+    }
+    Ok(())
+}
+
 pub fn subs(_ctx: &Ctx) -> Vec<Box<dyn Sub>> {
     vec![
         enum_sub("seeds-valid-and-canonical", |_| true, seed_refs, check_seed),
@@ -606,6 +701,7 @@ pub fn subs(_ctx: &Ctx) -> Vec<Box<dyn Sub>> {
         prop_sub("cbor-structure-aware-mutation", 30_000, 800_000, cbor_mut_case(), check_cbor_mut),
         prop_sub("seed-byte-mutation-all-codecs", 60_000, 2_000_000, byte_mut_case(), check_byte_mut),
         prop_sub("codec-toolkit-record", 20_000, 400_000, toolkit_case(), check_toolkit),
+        prop_sub("wal-receipt-correlation-generated", 30_000, 600_000, corr_case(), check_corr),
     ]
 }
 
